@@ -9,14 +9,14 @@ class Prop:
     pid = "C20"
     vo_check = ["theories/Pools/Check.vo"]
     vo_props = ["theories/Props/C20.vo"]
-    k_names = ["counts(VerifPoolCounts and staged totals after every step == Pools.Model.step)",
+    k_names = ["counts(VerifPoolCounts, staged totals and staged-element ownership after every step == Pools.Model.step)",
                "spec(Pools.Spec.holdsb: outstanding == idle baseline + staged, 0 after Close, on the observed counts)",
                "no-stall(sustained traffic through every drop branch with pools of 2*batch+8+receive buffers)"]
     rule = ("scenario = plan of harness actions on a fresh device with bounded pools (4096) and three remote parties, batch "
             "configurations (tun,bind,receive functions) in {(1,1,2),(4,2,1),(2,8,2),(3,3,1)}: 14 directed plans per configuration "
             "(outbound branches, inbound transport branches, handshake branches, key rotation, staged overflow > 128 containers, "
             "overflow then down/up, counter limit with out-of-order re-staging, down/up cycles, persistent keepalive, removal, "
-            "identity change, close with packets staged, close while down, rate-limited handshakes under load with a consumed cookie, handshake-queue overflow with all handshake workers parked in Bind.Send) + random plans from one PRNG; counts read after every "
+            "identity change, close with packets staged, close while down, rate-limited handshakes under load with a consumed cookie, handshake-queue overflow with all handshake workers parked in Bind.Send, TUN reads that return packets together with ErrTooManySegments followed by close / by a fatal read) + random plans from one PRNG; counts read after every "
             "step, Close followed by two runtime.GC(); 29 stall scenarios with very small pools + 4 rounds of two goroutines waiting on an exhausted message-buffer pool while a two-element batch is released; non-trivial = the plan reaches "
             "at least 6 different branch kinds and at least one step with packets staged; distinct by content hash")
     assumptions = ["pools are bounded through the package variable device.VerifPoolMax (build tag verif) so that WaitPool.count is maintained",
@@ -86,7 +86,8 @@ class Prop:
                  ["transport_no_live_keypair", "skipped_in_receive_loop"] +
                  ["handshake_" + x for x in ("bad_mac1", "initiation_accepted", "initiation_refused", "response_accepted", "response_refused", "cookie_reply", "under_load_cookie_sent")] +
                  ["peer_removals", "down", "up", "close", "steps_with_full_staged_queue", "steps_with_staged_packets", "identity_changes", "steps_with_counter_limit_restaging",
-                  "handshake_under_load_valid_cookie_rate_limiter", "handshake_queue_overflow_labelled"])
+                  "handshake_under_load_valid_cookie_rate_limiter", "handshake_queue_overflow_labelled",
+                  "tun_injections_with_ErrTooManySegments", "fatal_tun_reads"])
         tot = [0] * len(names)
         for o in outputs.values():
             v = vlib.parse_n_list(vlib.coq_value(o, "st"))
@@ -127,7 +128,8 @@ class Prop:
                     yield {"plan": cand, "cfg": case.get("cfg", [1, 1, 2]), "gen": "shrunk"}
             chunk //= 2
 
-    POOLS = {1: "inbound-containers", 2: "outbound-containers", 3: "message-buffers", 4: "inbound-elements", 5: "outbound-elements"}
+    POOLS = {1: "inbound-containers", 2: "outbound-containers", 3: "message-buffers", 4: "inbound-elements", 5: "outbound-elements",
+             6: "staged-element-ownership"}
 
     def signature(self, case, f):
         if case.get("_fail"):
@@ -140,6 +142,8 @@ class Prop:
         i = min(f["pos"] // 10, len(steps) - 1)
         ev = steps[i]["ev"].split()[0] if i >= 0 else "none"
         pool = self.POOLS.get(f["pos"] % 10, "p%d" % (f["pos"] % 10))
+        if f.get("kind") == 2 and f["pos"] % 10 == 6:
+            return "staged-element-owned-twice-on-%s" % ev
         exp = None
         kind = "mismatch"
         if i >= 0:
@@ -185,7 +189,7 @@ def replay(path):
     fs = p.run_cases([case])
     c = p.last_rerun[0]
     print(json.dumps({"failures": fs, "gen": c.get("gen"), "stall": c.get("stall"), "stuck": c.get("stuck"),
-                      "steps": [{"ev": s["ev"], "counts": s["counts"], "staged": [s["staged_elems"], s["staged_conts"]]}
+                      "steps": [{"ev": s["ev"], "counts": s["counts"], "staged": [s["staged_elems"], s["staged_conts"]], "ownership_defects": s.get("ownership_defects", 0)}
                                 for s in (c.get("steps") or [])][-12:]}))
     if any(f["kind"] == 2 for f in fs):
         print("VIOLATION property=C20 replay=%s" % path)
